@@ -6,6 +6,30 @@ import json, os
 ALL = ["C%02d" % i for i in range(1, 53)]
 
 CLAIMED = {
+ "C14": dict(
+   text="For all 20 integer/Word types: & | ^ checked bit by bit against the two's-complement representation, << against x*2^n truncated to the width, >> against floor(x/2^n), for every operand and every shift amount of the operand type (negative amounts must fail); the 128/256-bit toTwosComplement/Lsh/truncate/fromTwosComplement pipeline is executed for real over a bit-vector model of math/big.",
+   note="Full width for sized types (big.Int model width 272/528 bits, a checked bound). Int/UInt: |value| < 2^128 and shift < 128, or shift beyond uint64 (overflow error allowed); shifts in [128,2^64) of unbounded ints are outside. values.SignedBigIntToSizedBigEndianBytes / BigEndianBytesToSignedBigInt are replaced by exact summaries that C17 verifies against the real bodies.",
+   design="3 C14"),
+ "C15": dict(
+   text="Fix64 and UFix64 + - * / % and unary minus: solver shows for every pair of raw 64-bit operands that the result is the exact rational result truncated toward zero at scale 8 or the failure is the right overflow/underflow/division-by-zero error; % is a - trunc(a/b)*b and fails only when the quotient is unrepresentable (two arithmetic lemmas are discharged separately and used as cuts).",
+   note="Fix64/UFix64 only, full width. Fix128/UFix128 arithmetic and multiplyDivide delegate to the external github.com/onflow/fixed-point library and are outside this claim (listed in evidence assumptions).",
+   design="3 C15"),
+ "C16": dict(
+   text="All 484 ordered pairs among the 20 integer/Word types and Fix64/UFix64: the real Convert<T> is executed symbolically on an arbitrary source value; solver shows the result has the same mathematical value (fixed-point to integer truncates toward zero, Word targets reduce mod 2^n) or the conversion fails with an overflow/underflow error exactly when the value is not representable.",
+   note="Full source width (Int/UInt unbounded). Fix128/UFix128 sources/targets and the WithRounding variants are outside (external library). Either error kind is accepted for out-of-range values.",
+   design="3 C16"),
+ "C17": dict(
+   text="Byte encodings: for every integer, Word and 64-bit fixed-point type, fromBigEndianBytes(toBigEndianBytes(x)) == x for every x, the encoding is never longer than the type's size, and the converters never crash and stay in range on every byte array of every allowed length; plus the real bodies of the two byte/sign helpers that other checks summarise.",
+   note="Bytes part only. Int/UInt bounded by |x| < 2^128. toString/fromString (strconv, big.Int.Text, fmt) and Address/Path string forms are outside the claim; the array-value layer and the wrapper's length gate are outside.",
+   design="3 C17"),
+ "C40": dict(
+   text="Literal range checks: the real sema.CheckIntegerLiteral for all 20 sized/Word types + Int/UInt on an arbitrary integer value, and sema.CheckFixedPointLiteral / fixedpoint.New{Fix64,UFix64,Fix128,UFix128} on arbitrary (sign, integer part, fractional part, parsed scale): accepted exactly when the scale fits and the exact decimal value is in the type's range, and the converted value equals value*10^scale.",
+   note="Unbounded integer/fraction values; parsed scale 0..scale+2. Lexing, base prefixes/underscores (big.Int.SetString in non-decimal bases) and string escapes are outside. Type ranges in the checker come from the real sema type objects (snapshot of the real build).",
+   design="3 C40"),
+ "C47": dict(
+   text="revertibleRandom for the 8 native unsigned types and UInt128 (quick; UInt256/Word128/Word256 in thorough) with a fully symbolic modulus and a generator stub returning arbitrary bytes: result < modulus, each candidate is exactly the fresh bytes reduced mod 2^bitlen(m-1), the minimal number of bytes is drawn, a candidate is accepted iff <= m-1, zero modulus fails, and without modulus all bits of the type come from one draw.",
+   note="At most 2 (thorough 3) draws per call are explored; later iterations start from the same kind of state. Exact uniformity follows on paper from the checked facts (stated in evidence). Termination with probability 1 is outside.",
+   design="3 C47"),
  "C11": dict(
    text="For each of the 14 sized integer types plus Int/UInt and each of + - * / % and unary minus, the real interpreter method is executed symbolically (machine ints as mathematical integers with Go's wrap/truncation spelled out; big.Int by an exact model) and an SMT solver shows, for every operand pair of the full width, that the result equals the exact integer result or the failure is the right overflow/underflow/division-by-zero error.",
    note="Full operand width, no bound on values (Int/UInt unbounded). Assumes operands satisfy the representation invariant and have equal types; gauge nil, big-int metering estimators stubbed (C32). Trusted: go/ssa, the executor and its math/big model (validated per path against the native build), solvers.",
@@ -36,10 +60,6 @@ NA_REASON = {
  "C08": "subtyping over type graphs built from init-time pointer structures; symbolic execution degenerates to enumeration",
  "C09": "casts vs isInstance over values x types in both engines",
  "C10": "condition enforcement over program ASTs / desugaring",
- "C14": "not built yet",
- "C15": "not built yet",
- "C16": "not built yet",
- "C17": "not built yet",
  "C18": "not built yet",
  "C19": "NFC normalisation / grapheme segmentation are Unicode-table state machines in external libraries; no encodable oracle",
  "C20": "atree B+-tree containers, slab thresholds, storage reloads",
@@ -56,13 +76,11 @@ NA_REASON = {
  "C36": "schedules / data races; the encoder is sequential",
  "C37": "not built yet (stretch kernel: lexer on <=3 bytes)",
  "C38": "printer round trip AST -> Doc -> text -> parser", "C39": "formatter round trip over ASTs",
- "C40": "not built yet",
  "C41": "JSON codec uses encoding/json and reflection over value graphs",
  "C42": "not built yet (kernel: CCF canonical order comparators)",
  "C43": "JSON vs CCF agreement over value graphs",
  "C44": "fxamacker/cbor streaming codec; cross-version stability needs a stored corpus",
  "C45": "not built yet (stretch kernel: location type-ID round trip)",
- "C47": "not built yet",
  "C48": "program-level (events)", "C49": "program-level (attachments)", "C50": "program-level (access modifiers)",
  "C51": "not built yet",
  "C52": "program-level (evaluation order)",
